@@ -1284,4 +1284,20 @@ Proof.
   unfold ByteVecSpec.zeros. rewrite repeat_length. lia.
 Qed.
 
+Lemma spec_slice_pointwise : forall (l : list B) (a b i : nat),
+  length (fa_slice l a b) = b - a /\
+  (i < b - a -> nth i (fa_slice l a b) zero = nth (a + i) l zero).
+Proof. intros. split; [apply fa_slice_length | apply fa_slice_nth]. Qed.
+
+Lemma spec_set_slice_pointwise : forall (l : list B) (a b : nat) (data l' : list B) (i : nat),
+  a < b -> fa_set_slice l a b data = Some l' ->
+  length l' = Nat.max (length l) b /\
+  nth i l' zero = (if (a <=? i) && (i <? b) then nth (i - a) data zero else nth i l zero).
+Proof. intros. split; [eapply fa_set_slice_length | eapply fa_set_slice_nth]; eassumption. Qed.
+
+Lemma spec_set_byte_pointwise : forall (l : list B) (off : nat) (x : B) (i : nat),
+  length (fa_set_byte l off x) = Nat.max (length l) (off + 1) /\
+  nth i (fa_set_byte l off x) zero = (if i =? off then x else nth i l zero).
+Proof. intros. split; [apply fa_set_byte_length | apply fa_set_byte_nth]. Qed.
+
 End Proofs.
